@@ -109,7 +109,9 @@ func (c *Chain) DistStates() []disttypes.State {
 	return c.App.CfedistributorKeeper.GetAllStates(c.Ctx())
 }
 
-func DistMainAddr() sdk.AccAddress { return authtypes.NewModuleAddress(disttypes.DistributorMainAccount) }
+func DistMainAddr() sdk.AccAddress {
+	return authtypes.NewModuleAddress(disttypes.DistributorMainAccount)
+}
 
 // StoreDump returns all key/values of one module store (deliver state inside a block).
 func (c *Chain) StoreDump(storeKey string) map[string][]byte {
